@@ -334,6 +334,9 @@ where
         T: From<VarInt> + PartialOrd<T> + Copy,
         VarInt: From<T>,
     {
+        // A connection which already ended with an error can not be shut down gracefully
+        self.check_connection_error()?;
+
         if let Some(sent_id) = sent_closing {
             if *sent_id <= max_id {
                 return Ok(());
